@@ -27,7 +27,7 @@ CHECKS['C15'] = {
              'error rates); per-step relation acc[:|acc|-ceil(o/2)] ++ t[floor(o/2):], length = sum of parts - sum of overlaps, one logits row per '
              'character; o = 0 is plain concatenation (61 obligations).'),
     'note': ('Trusted: pyvc generator; strings as z3 Seq of opaque symbols, logits as z3 Seq of opaque rows (np.concatenate axis 0 = Concat, row '
-             'slicing = SubSeq); callee contract of levenshtein_distance (result >= 0) proved under C13. Window splitting in process_lines is not under contract: bounded only (split-and-stitch: the real process_lines of a transformer-type stub engine on 236 tuples of painted lines, every line must be stitched from the windows of its own text).'),
+             'slicing = SubSeq); callee contract of levenshtein_distance (result >= 0) proved under C13. Window splitting in process_lines is not under contract: bounded only (split-and-stitch: the real process_lines of a transformer-type stub engine on 260 tuples of painted lines, every line must be stitched from the windows of its own text; a third of them also through the real TransformerEngineLineOCR.run_ocr / transcribe_batch around a stub network, which has to establish the proved merge\'s precondition - as many logit rows as characters for every part).'),
 }
 
 CHECKS['C19'] = {
@@ -147,8 +147,8 @@ CHECKS['C17'] = {
     'technique': 'per-call and structural verification conditions on the real parse_folder.py (bounded-symbolic set intersection proof, resume-safety condition, slice-mode division obligation) + bounded crash-point enumeration of the real main() with a stub parser',
     'text': ('DECIDED on the source: load_already_processed_files = intersection over the given directories (z3, 4 optional directories); resume-safety '
              'condition (every output kind written after a consulted kind is consulted) so that "skipped" implies "every requested output present" for every '
-             'kill point between writes; every guarded block writes its path; no division by zero at exit. BOUNDED: real main() + real writers killed before every '
-             'write (1-2 crashes quick, up to 3 thorough) for representative / all output subsets and ids with dots: final tree equals the uninterrupted tree, '
+             'kill point between writes; every guarded block writes its path; no division by zero at exit. BOUNDED: real main() + real writers killed in every gap between two '
+             'writes, at both ends of the gap (next write about to start / previous write just completed; 1-2 crashes quick, up to 3 thorough) for representative / all output subsets and ids with dots: final tree equals the uninterrupted tree, '
              'complete pages not reprocessed, idle run exits cleanly; file-name -> id mapping exhaustive over names of length <= 5.'),
     'note': 'Trusted: atomic file writes (kills between writes only); stub PageParser; the induction from the three per-call obligations to arbitrary crash/resume sequences is a pen-and-paper argument in DESIGN.md.',
 }
